@@ -18,7 +18,7 @@ from analysis import units
 from rules import dir_shared as ds, storage_shared as ss, c18
 
 EXPLANATION = __doc__
-FLOOR = 39
+FLOOR = 41
 
 
 def run(ctx):
@@ -37,6 +37,25 @@ def run(ctx):
         fresh = ['commitment_key', 'label', 'value'] + (['version'] if name == 'whatsapp_v1' else [])
         flow_complete(ctx, 'C01.F.fresh[%s]' % name, prog.one(pre + 'compute_fresh_azks_value'), fresh, 'fresh leaf commitment')
         flow_complete(ctx, 'C01.F.root[%s]' % name, prog.one(pre + 'compute_root_hash_from_val'), ['root_val'], 'root hash')
+    # the constants of the commitment (spec: akd_core/src/lib.rs): a retired version's leaf carries the configuration's
+    # stale value — H(EMPTY_VALUE) in whatsapp_v1, the all-zero digest in experimental — which is NOT the value of an absent
+    # child; server and verifier share the helper, so another constant changes every root that covers an updated label
+    # while all proofs keep verifying (seeded change C01-r3-a)
+    want = {'whatsapp_v1': 'AzksValue::AzksValue{0: <WhatsAppV1Configuration as Configuration>::hash(types::EMPTY_VALUE)}',
+            'experimental': 'AzksValue::AzksValue{0: hash::EMPTY_DIGEST}'}
+    for name, pre in c18.CFGS:
+        sv = prog.one(pre + 'stale_azks_value')
+        e0 = result_expr(sv)
+        # a nullary helper of the same configuration is looked through (e.g. `Self::empty_root_value()`, which is the
+        # same digest in whatsapp_v1), so only the resulting formula counts
+        for _ in range(2):
+            if e0[0] == 'call' and not e0[3] and (e0[2] or e0[1]) in prog.bodies and (e0[2] or e0[1]).startswith(pre):
+                e0 = result_expr(prog.bodies[e0[2] or e0[1]])
+        got = show(e0)
+        ok = got == want.get(name) or (name == 'experimental' and got == 'AzksValue::AzksValue{0: 0}')
+        ctx.ob('C01.F.stale_value[%s]' % name, 'RF-FLOW', ok, sv.path, '%s:%s' % (sv.file, sv.line),
+               'stale leaves carry %s' % want.get(name) if ok else 'the stale-leaf value is no longer %s but %s' % (want.get(name), got[:120]),
+               key='RF-FLOW|stale_value|%s' % name)
     nv = prog.one('akd::tree_node::node_to_azks_value')
     e = result_expr(nv)
     hc = list(calls_in(e, 'hash_leaf_with_commitment'))
